@@ -17,7 +17,7 @@ import (
 
 const c17TTL = 10 // seconds
 
-var c17Keys = []string{"/r/events/ns/e1", "/r/pods/ns/p1", "/r/pods/events/p2", "/r/x/events/y"}
+var c17Keys = []string{"/r/events/ns/e1", "/r/pods/ns/p1", "/r/pods/events/p2", "/r/x/events/y", "/r/eventsources/ns/s"}
 
 func isEventKey(k string) bool { return strings.HasPrefix(k, "/r/events/") }
 
@@ -31,14 +31,16 @@ var c17Cfgs = []struct {
 // alphabet: 3 writes x 4 keys, compact, 3 clock advances
 var c17Adv = []time.Duration{(c17TTL - 1) * time.Second, time.Second, (c17TTL + 1) * time.Second}
 
+var c17NW = 3 * len(c17Keys) // number of write operations in the alphabet
+
 func c17OpName(a int) string {
 	switch {
-	case a < 12:
+	case a < c17NW:
 		return fmt.Sprintf("%s(%s)", []string{"create", "update", "delete"}[a%3], c17Keys[a/3])
-	case a == 12:
+	case a == c17NW:
 		return "compact"
 	}
-	return fmt.Sprintf("clock+%v", c17Adv[a-13])
+	return fmt.Sprintf("clock+%v", c17Adv[a-c17NW-1])
 }
 
 func c17Run(cfgIdx int, hist []int) *mc.SeqOut {
@@ -105,8 +107,8 @@ func c17Run(cfgIdx int, hist []int) *mc.SeqOut {
 				// never expires
 				if wantLive && !kvEq(g.Kv, l.val, l.rev) || !wantLive && g.Kv != nil {
 					sig := "non-event-key-changed"
-					if wantLive && g.Kv == nil && strings.Contains(k, "/events/") {
-						sig = "non-event-key-expired|name-contains-events-segment"
+					if wantLive && g.Kv == nil && strings.Contains(k, "/events") {
+						sig = "non-event-key-expired|name-resembles-events"
 					}
 					fail(sig, "%s: %s is not an Event record; it should read %v (live=%v) but reads %v; %d records stored, newest change %v ago", when, k, l, wantLive, g.Kv, nrec, age)
 				}
@@ -131,7 +133,7 @@ func c17Run(cfgIdx int, hist []int) *mc.SeqOut {
 	}
 	for _, a := range hist {
 		switch {
-		case a < 12:
+		case a < c17NW:
 			key := c17Keys[a/3]
 			kind := []reqKind{rCreate, rUpdOK, rDelOK}[a%3]
 			exp := uint64(0)
@@ -162,13 +164,13 @@ func c17Run(cfgIdx int, hist []int) *mc.SeqOut {
 				m.apply(kind, key, op.Val, op.Hdr)
 				lastChange[key] = nowNs()
 			}
-		case a == 12:
+		case a == c17NW:
 			if _, err := w.b.Compact(bg, 0); err != nil {
 				fail("compact-error", "%v", err)
 			}
 			vrt.Quiesce()
 		default:
-			vrt.Advance(c17Adv[a-13])
+			vrt.Advance(c17Adv[a-c17NW-1])
 			vrt.Quiesce()
 		}
 		check("after " + c17OpName(a))
@@ -206,7 +208,7 @@ func init() {
 	mc.Register(&mc.Property{
 		ID:    "C17",
 		Level: "model_checking",
-		Rule: "every history up to depth 4 (thorough 5) over {create, update, delete on an Event key, a plain key and two look-alike keys whose names merely contain an 'events' segment; compaction; the clock advancing by TTL-1s, 1s, TTL+1s} on memkv without native TTL (compaction-driven expiry), memkv with native TTL (timers on the virtual clock) and (thorough) tikv-mock; after every step every key is compared with the versioned-map model: non-Event keys must never change, an Event may read absent only if its newest change is at least TTL old and then no record of it may be left and it must be creatable again; the watcher must see the clients' writes only",
+		Rule: "every history up to depth 4 (thorough 5) over {create, update, delete on an Event key, a plain key and three look-alike keys (an 'events' segment deeper in the path, a sibling directory whose name begins with 'events'); compaction; the clock advancing by TTL-1s, 1s, TTL+1s} on memkv without native TTL (compaction-driven expiry), memkv with native TTL (timers on the virtual clock) and (thorough) tikv-mock; after every step every key is compared with the versioned-map model: non-Event keys must never change, an Event may read absent only if its newest change is at least TTL old and then no record of it may be left and it must be creatable again; the watcher must see the clients' writes only",
 		Assume: []string{"TTL set to 10 s through the injected setter; virtual clock", "Event keys are the keys under <prefix>/events/ (the property's definition)"},
 		Exec:   func(j *mc.Job) *mc.JobResult { return mc.SeqExec(j, c17Run) },
 		Drive: func(c *mc.Ctx) {
@@ -223,7 +225,7 @@ func init() {
 				if i == 2 {
 					d = 3
 				}
-				st := mc.DriveSeq(c, "bfs", i, 16, d)
+				st := mc.DriveSeq(c, "bfs", i, c17NW+1+len(c17Adv), d)
 				per[c17Cfgs[i].name] = st
 				total.States += st.States
 				total.Transitions += st.Transitions
